@@ -785,3 +785,52 @@ def gen_tree_history(rng, nphase=None):
         trees.append(new)
         mutations.append(kind)
     return trees, events, mutations
+
+
+# ---------------------------------------------------------------------------------------------
+# Explicit, generator-independent replay data
+# ---------------------------------------------------------------------------------------------
+
+
+def to_json(obj):
+    if isinstance(obj, bytes):
+        return {"__bytes__": obj.decode("utf-8", "surrogateescape")}
+    if isinstance(obj, (list, tuple)):
+        return [to_json(x) for x in obj]
+    if isinstance(obj, dict):
+        return {str(k): to_json(v) for k, v in obj.items()}
+    return obj
+
+
+def from_json(obj):
+    if isinstance(obj, dict):
+        if set(obj) == {"__bytes__"}:
+            return obj["__bytes__"].encode("utf-8", "surrogateescape")
+        return {k: from_json(v) for k, v in obj.items()}
+    if isinstance(obj, list):
+        items = [from_json(x) for x in obj]
+        if items and isinstance(items[0], str) and (items[0] in ACTION_NAMES or items[0] in EDIT_NAMES or
+                                                    items[0] in ("build", "edits", "shutdown")):
+            return tuple(items)
+        return items
+    return obj
+
+
+EDIT_NAMES = {"write", "remove", "rmtree", "mkdir", "move", "touch", "setenv", "script"}
+
+
+def pack_case(initial: Project, events, final: Project, seed: int, fresh_kwargs: dict, extra: dict | None = None) -> dict:
+    """Everything needed to run the case again without the generator."""
+    return {"initial": to_json({"scripts": initial.scripts, "files": initial.files, "env": initial.env}),
+            "events": to_json(events),
+            "final": to_json({"scripts": final.scripts, "files": final.files, "env": final.env}),
+            "seed": seed, "fresh_kwargs": to_json(fresh_kwargs), **(extra or {})}
+
+
+def unpack_case(data: dict):
+    def proj(d):
+        d = from_json(d)
+        return Project(scripts=d["scripts"], files=d["files"], env=d["env"])
+
+    return proj(data["initial"]), from_json(data["events"]), proj(data["final"]), data["seed"], \
+        from_json(data["fresh_kwargs"])
